@@ -49,6 +49,36 @@ def _parse(s):
     return datetime.datetime(int(y), int(mo), int(da), int(h), int(mi), int(se))
 
 
+_STAMP = None
+
+
+def _read_stamp(iso):
+    """an ISO 8601 stamp with numeric offset (or Z), read independently of the library: any number of fraction digits"""
+    global _STAMP
+    import re
+    if _STAMP is None:
+        _STAMP = re.compile(r'^(\d{4})-(\d\d)-(\d\d)T(\d\d):(\d\d):(\d\d)(?:\.(\d+))?(Z|[+-]\d\d:\d\d(?::\d\d)?)$')
+    m = _STAMP.match(iso)
+    if not m:
+        return None
+    y, mo, d, h, mi, se, frac, off = m.groups()
+    frac = frac or ''
+    if len(frac) > 6 and frac[6:].strip('0'):
+        return None                 # finer than a microsecond: not what was written
+    us = int((frac + '000000')[:6])
+    if off == 'Z':
+        delta = datetime.timedelta(0)
+    else:
+        parts = [int(x) for x in off[1:].split(':')]
+        delta = datetime.timedelta(hours=parts[0], minutes=parts[1], seconds=parts[2] if len(parts) > 2 else 0)
+        if off[0] == '-':
+            delta = -delta
+    try:
+        return datetime.datetime(int(y), int(mo), int(d), int(h), int(mi), int(se), us, tzinfo=datetime.timezone(delta))
+    except ValueError:
+        return None
+
+
 def check_mapped(case):
     """case = {'zone': haystack name, 'utc': 'YYYY-MM-DDTHH:MM:SS', 'us': int, 'fmt': 'zinc'|'json', 'grid': bool}"""
     import hszinc
@@ -91,7 +121,8 @@ def check_mapped(case):
         iso = body.split(' ')[0]
         if case['fmt'] == 'json':
             iso = iso[2:]
-        if iso != dt.isoformat():
+        stamp = _read_stamp(iso)
+        if stamp is None or stamp != dt or stamp.utcoffset() != dt.utcoffset() or stamp.microsecond != dt.microsecond:
             raise Violation('text-iso', case, 'text %r does not carry %s' % (txt, dt.isoformat()), tags)
 
 
@@ -186,6 +217,9 @@ def check_other(case):
     if dt.astimezone(tz).utcoffset() != dt.utcoffset():
         raise Violation('offset', case, 'emitted zone %s has offset %s at that instant, value has %s (text %r)' % (
             zname, dt.astimezone(tz).utcoffset(), dt.utcoffset(), txt), tags)
+    stamp = _read_stamp(iso)
+    if stamp is None or stamp != dt:
+        raise Violation('text-iso', case, 'text %r does not carry the instant %s' % (txt, dt.isoformat()), tags)
     back = guarded('parse-raises', case, hszinc.parse_scalar, txt, mode=mode)
     if not isinstance(back, datetime.datetime) or back != dt:
         raise Violation('instant', case, 'wrote %s, read %r (text %r)' % (dt.isoformat(), back, txt), tags)
